@@ -503,7 +503,7 @@ class G:
                 out += ["for %s in 0..2 {" % c] + ind(['print("it " + String.from(%s));' % c] + body) + ["}"]
             elif k == 5 and in_fn and not ("F27" in self.avoid and getattr(self, "try_depth", 0) >= 2):
                 self.tag("return-in-try" if in_try else "return")
-                out.append('if true { return "early"; }')
+                out.append(self.r.choice(['if true { return "early"; }', "if true { return; }"]))
             elif k == 6 and in_loop and not (in_try and "F13" in self.avoid):
                 self.tag("break-in-try" if in_try else "break")
                 out.append("if true { %s; }" % self.r.choice(["break", "continue"]))
